@@ -9,7 +9,7 @@ EXPLANATION = ('(1) per-character kernels write_utf8/write_utf16/utf8_measure/ut
                '(4) ST::string routes (ctor/set/from_*/to_*/operator= for each unit width, char_buffer, std::basic_string, string_view) agree with the free functions.')
 BOUNDS = {'quick': 'kernels: all scalars (no sequence bound); sequences: K<=2 scalars (<=8 UTF-8 bytes, <=4 UTF-16 units), Latin-1 <=4 bytes; one query per mode',
           'thorough': 'K<=3 scalars (<=12 UTF-8 bytes), Latin-1 <=8 bytes'}
-OUTSIDE = 'sequences longer than K scalars (each loop iteration depends only on the <=4 units at the cursor: argued, not mechanised); literal operators and STL overloads are covered through the shims that construct them from pointer+length'
+OUTSIDE = 'sequences longer than K scalars (each loop iteration depends only on the <=4 units at the cursor: argued, not mechanised); std::basic_string objects are built (and read back) by libstdc++ code that is translated along with the library (its allocation goes through the heap model); u8string (char8_t) overloads and to_path/from_path'
 
 def queries():
     qs = []
@@ -43,8 +43,8 @@ def queries():
                             unwind=n + 2, hunwind=max(4 * n + 4, 18), tiers=(tier,), bound={'chain': '%s->%s->%s' % (a, b, a), 'shape': list(shp), 'modes': 'symbolic, independent per leg'}, timeout=400 if tier == 'quick' else 1500))
     # (4) ST::string routes: into a string from UTF-16/32/wchar_t (members, constructors, buffer and string_view overloads, literal operators), out of a string
     #     (to_utf8/16/32/wchar/latin_1), Latin-1 round trip
-    R16 = {1: 'from_utf16', 2: 'ctor_ptr', 3: 'ctor_buffer', 4: 'assign_buffer', 5: 'ctor_string_view', 6: 'literal'}
-    R32 = {1: 'from_utf32', 2: 'ctor_ptr', 3: 'ctor_buffer', 4: 'assign_buffer', 6: 'literal', 7: 'from_wchar'}
+    R16 = {1: 'from_utf16', 2: 'ctor_ptr', 3: 'ctor_buffer', 4: 'assign_buffer', 5: 'ctor_string_view', 6: 'literal', 7: 'from_std_u16string_view', 8: 'from_std_u16string'}
+    R32 = {1: 'from_utf32', 2: 'ctor_ptr', 3: 'ctor_buffer', 4: 'assign_buffer', 6: 'literal', 7: 'from_wchar', 8: 'from_std_u32string_view', 9: 'from_std_u32string', 10: 'from_std_wstring_view', 11: 'from_std_wstring'}
     for tier, shapes16, shapes32, shapes8 in (('quick', [(1,), (2,)], [(1, 1)], [(2, 4), (3, 1)]), ('thorough', cc.shapes('u16', 2), [(1, 1, 1)], cc.shapes('u8', 2))):
         for shp in shapes16:
             for r, rn in R16.items():
@@ -57,6 +57,9 @@ def queries():
             for r, rn in R32.items():
                 qs.append(Q('into_u32_%s_%s_%s' % (rn, ''.join(map(str, shp)), tier), 'C01_routes.c', 'strconv.cpp', config='small', defs={'OP': 2, 'ROUTE': r, 'SHAPE_K': len(shp), 'SHAPE_LENS': '{' + ','.join(map(str, shp)) + '}'},
                             unwind=4 * len(shp) + 6, heap_cap=32, tiers=(tier,), bound={'route': rn, 'shape': list(shp), 'mode': 'symbolic'}, timeout=900))
+        for shp in ([(2, 4)] if tier == 'quick' else [(3, 1), (4, 4)]):
+            qs.append(Q('out_of_string_stl_%s_%s' % (''.join(map(str, shp)), tier), 'C01_routes.c', 'strconv.cpp', config='small', defs={'OP': 3, 'STL_OUT': 1, 'SHAPE_K': len(shp), 'SHAPE_LENS': '{' + ','.join(map(str, shp)) + '}'},
+                        unwind=4 * len(shp) + 6, heap_cap=48, mem_gb=12, tiers=(tier,), bound={'routes': 'to_std_string / to_std_u16string / to_std_u32string / to_std_wstring / to_std_string(false)', 'shape': list(shp)}, timeout=900))
         for shp in shapes8:
             qs.append(Q('out_of_string_%s_%s' % (''.join(map(str, shp)), tier), 'C01_routes.c', 'strconv.cpp', config='small', defs={'OP': 3, 'SHAPE_K': len(shp), 'SHAPE_LENS': '{' + ','.join(map(str, shp)) + '}'},
                         unwind=4 * len(shp) + 6, heap_cap=32, tiers=(tier,), bound={'routes': 'to_utf8/16/32/wchar/latin_1', 'shape': list(shp)}, timeout=900))
@@ -66,7 +69,7 @@ def queries():
             qs.append(Q('repairer_identity_%s_%s' % (''.join(map(str, shp)), tier), 'C01_routes.c', 'strconv.cpp', config='small', defs={'OP': 6, 'SHAPE_K': len(shp), 'SHAPE_LENS': '{' + ','.join(map(str, shp)) + '}'},
                         unwind=4 * len(shp) + 6, heap_cap=32, tiers=(tier,), bound={'kernels': 'validate_utf8, cleanup_utf8', 'shape': list(shp)}, timeout=900))
         for shp in ([(4,), (3,), (1,)] if tier == 'quick' else [(2,), (1, 4)]):
-            for r, rn in ((1, 'from_utf8'), (2, 'ctor_cbuf'), (3, 'set_cbuf_move')):
+            for r, rn in ((1, 'from_utf8'), (2, 'ctor_cbuf'), (3, 'set_cbuf_move'), (4, 'from_std_string_view'), (5, 'from_std_string')):
                 for mode in (0, 1, 2):
                     if mode == 1 and shp != (1,): continue    # substitute_invalid through ST::string: > 12 GB beyond one byte (DESIGN.md section 1, last row); the repairer itself: repairer_identity_*
                     if tier == 'quick' and r != 1 and mode != 1: continue
